@@ -1745,9 +1745,9 @@ def run(ctx):
         "overloaded constant of the signature, T monomorphic / over rigid 'a / over ?'a, recursive calls, annotated heads, malformed shapes "
         "with the same name, in hand-made clashes and in well-typed terms where one declared variable has 'a and ?'a exchanged. "
         "Non-trivial = skeleton has at least 4 nodes; distinct by skeleton + context.")
-    proofs_ok = ctx.lean_props(["Holpy.C08.Props", "Holpy.C08.Props2"], exes=[EXE])
+    proofs_ok = ctx.lean_props(["Holpy.C08.Props", "Holpy.C08.Props2", "Holpy.C08.Props3"], exes=[EXE])
     if ctx.tier == "thorough" and proofs_ok:
-        ctx.lean_check_modules(["Holpy.C08.Props", "Holpy.C08.Props2"])
+        ctx.lean_check_modules(["Holpy.C08.Props", "Holpy.C08.Props2", "Holpy.C08.Props3"])
     ctx.coverage["trusted_base"] += [
         "harness/props/c08.py: generators, the reference unifier used as completeness oracle, the tuple <-> Term conversion",
         "kernel Term.checked_get_type as the judge of 'type-checks'",
@@ -1759,7 +1759,8 @@ def run(ctx):
         "which TypeInferenceException is raised (occurs / clash / not a function / under-determined / reserved) is read off the message "
         "text for the histogram only; verdicts and the comparison with the model use the exception class, and whether an error is "
         "justified is decided by the reference unifier (fully determined typing exists: error is a violation)",
-        "termination: proved (unify_fuel_suffices, final_loop_terminates, type_infer_total); principality of the traversal: not proved",
+        "termination: proved (unify_fuel_suffices, final_loop_terminates, type_infer_total); completeness / principality of the whole "
+        "traversal: proved (infer_complete, infer_principal, erasure_recovery_all_levels) under the explicit hypotheses of Props3.lean",
         "the model takes the signature as a parameter (Ctx.sig): that type_infer reads the signature of the theory current at the time "
         "of the call (no state kept between calls or theories) is checked by the history stream, not proved"]
     sig = load_sig(ctx)
@@ -1832,16 +1833,24 @@ MANIFEST = {
             "(if some substitution solves uf and unifies A and B, unify succeeds and keeps it: the solved form has exactly the unifiers), "
             "infer_state_good (every state the traversal reaches satisfies the invariants these need), type_infer_total (some fuel is "
             "always enough: the whole of type_infer terminates), erasure_recovery (variable types dropped, variables declared, constant and "
-            "binder types kept: exactly the original term comes back), union_preserves_reach + infer_preserves_reach + final_loop_terminates (the final "
+            "binder types kept: exactly the original term comes back), infer_complete (a skeleton that has any well-typed completion is never "
+            "rejected with a unification error: type_infer returns a term or reports 'unspecified type'), infer_principal (a returned term "
+            "has every completion as a substitution instance) + infer_result_is_completion (it is itself a completion) + infer_principal_forbid (with forbid_internal the returned term is the only "
+            "completion), erasure_recovery_all_levels (an erasure of a well-typed term at ANY level - dropped variable types declared, "
+            "dropped constant types instances of the signature - is either reported under-determined or recovered exactly), "
+            "union_preserves_reach + infer_preserves_reach + final_loop_terminates (the final "
             "substitution loop terminates on every state the traversal can reach). Model tied to syntax/infertype.py by differential runs on "
             "generated skeletons; the real type_infer is judged on every generated skeleton by an oracle that needs no model "
             "(checked_get_type, shape, annotations, declared types, instances, no _tN, exact recovery of erased well-typed terms, and an "
             "independent textbook unifier deciding typable / under-determined / untypable).",
     "note": "Trusted: Lean kernel, propext/Classical.choice/Quot.sound, the generators and reference unifier in harness/props/c08.py, "
-            "kernel Term.checked_get_type. NOT proved: principality of the whole traversal infer (that the returned term is the most general "
-            "completion of the skeleton / that an erasure is either recovered or under-determined): proved for the unification core only "
-            "(unify_complete, unify_most_general) and for the erasure level 'variable types only' (erasure_recovery); for the other levels "
-            "it is checked by the reference unifier on generated inputs. type_infer_total gives existence of enough fuel, not a closed "
+            "kernel Term.checked_get_type. Both sentences of the property are now theorems about the model (infer_sound; infer_complete / "
+            "infer_principal / erasure_recovery_all_levels), under explicit hypotheses: clean context (no reserved ?'_t... name in declared "
+            "types and defs, signature types over TVars only), no reserved name in the skeleton's annotations, the completion type-checks with "
+            "`fun` applied to exactly two types (checkedGetType2: Type.is_fun only looks at the name), ctxt.defs empty for the erasure "
+            "corollary; the completion relation Compl takes a constant the theory knows at an instance of its theory type (defs only for "
+            "unknown names and, via applyDefs, for the head of a definition). NOT proved: nothing about infer_printed_type; the "
+            "correspondence model <-> Python is by differential runs. type_infer_total gives existence of enough fuel, not a closed "
             "formula for the whole traversal (unify_fuel_suffices gives the formula per unify call); the harness runs the model with "
             "fuel 100000 and reports a model fuel exhaustion as a broken correspondence. "
             "infer_printed_type is not modelled. Scope of 'gives all occurrences of a variable one type': the occurrences WITHOUT annotation "
